@@ -823,8 +823,8 @@ class C07(Base):
            "m4.from_angle_z", "q.from_angle_x", "q.from_angle_y", "q.from_angle_z", "rad.turn_div_4", "m3.mul", "q.mul"]
     oracle_ops = ["o.euler.product"]
     native_args = float_args("c07")
-    level_note = Base.level_note + FLOAT_NOTE + (" The 0.13 gimbal-cone envelope is stated (gimbal_bound_full) but not proved; "
-                                                 "it is evaluated by the f64 oracle only.")
+    level_note = Base.level_note + FLOAT_NOTE + (" The 0.13 gimbal-cone envelope is proved over the reals (gimbal_bound: every "
+                                                 "element within 0.13, in fact within 0.094) and also measured by the f64 oracle.")
 
     def families(self, rng, tier):
         out = []
